@@ -87,8 +87,12 @@ def qb_cases(ctx, per_mn):
 
 
 # ------------------------------------------------------------------ embedding of model outputs
-def dg(emb, v):
-    return list(emb["dig"][str(v)])
+def dg(emb, v, role="null"):
+    """model digest -> real digest.  Nullifiers (and the aggregator address) live on the ordered number line `dig`; the
+    equality-only roles (exit accounts, block hashes) use `eq`, which contains a non-zero digest with limb sum 0 and a pair
+    of distinct digests with equal limb sums (see harness/src/wrapper.rs: Emb)."""
+    m = emb["eq"] if role in ("acct", "block") and "eq" in emb else emb["dig"]
+    return list(m[str(v)])
 
 
 def sc(emb, case, kind, v):
@@ -99,10 +103,10 @@ def pb_expected(case, emb):
     o, n = case["out"], case["n"]
     # with no real slot the header fee / number are the literal zero, not the embedding of the model value 0
     none_real = o["block"] == 0
-    v = ([o["nslots"], sc(emb, case, "asset", o["asset"]), 0 if none_real else sc(emb, case, "fee", o["fee"])] + dg(emb, o["block"])
+    v = ([o["nslots"], sc(emb, case, "asset", o["asset"]), 0 if none_real else sc(emb, case, "fee", o["fee"])] + dg(emb, o["block"], "block")
          + [0 if none_real else sc(emb, case, "number", o["number"])])
     for s in o["slots"]:
-        v += [s[0] * emb["amt_unit"]] + dg(emb, s[1])
+        v += [s[0] * emb["amt_unit"]] + dg(emb, s[1], "acct")
     for x in o["nulls"]:
         v += dg(emb, x)
     return v + [0] * (LEAF * n + 8 - len(v))
@@ -112,9 +116,9 @@ def qb_expected(case, emb):
     o = case["out"]
     none_real = o["block"] == 0
     z = lambda kind: 0 if none_real else sc(emb, case, kind, o[kind])
-    v = dg(emb, o["addr"]) + [z("asset"), z("fee")] + dg(emb, o["block"]) + [z("number"), o["total"]]
+    v = dg(emb, o["addr"]) + [z("asset"), z("fee")] + dg(emb, o["block"], "block") + [z("number"), o["total"]]
     for s in o["slots"]:
-        v += [s[0] * emb["amt_unit"]] + dg(emb, s[1])
+        v += [s[0] * emb["amt_unit"]] + dg(emb, s[1], "acct")
     for x in o["nulls"]:
         v += dg(emb, x)
     return v
@@ -257,7 +261,7 @@ def pb_semantic_checks(c, pis, emb, tally, desc, stats):
     for x in ch:
         if not is_dummy(x):
             for e, o in ((x["exit1"], x["out1"]), (x["exit2"], x["out2"])):
-                to[tuple(dg(emb, e))] = to.get(tuple(dg(emb, e)), 0) + o * unit
+                to[tuple(dg(emb, e, "acct"))] = to.get(tuple(dg(emb, e, "acct")), 0) + o * unit
     for k, (s, acct) in enumerate(slots):
         if s != 0 and to.get(acct, 0) != s:
             tally.add("C08", f"output slot {k} carries {s} for an account the real slots pay {to.get(acct, 0)} [{desc}]",
